@@ -234,6 +234,7 @@ fn main() {
         "sigchunk" => suites::signal::run_chunk(&ctx),
         "sigflush" => suites::signal::run_flush(&ctx),
         "siglong" => suites::signal::run_long(&ctx),
+        "sighold" => suites::signal::run_hold(&ctx),
         "sigreset" => suites::signal::run_reset(&ctx),
         "sighostile" => suites::signal::run_hostile(&ctx),
         "sigseq" => suites::signal::run_seq(&ctx),
